@@ -7,7 +7,7 @@
 // thread), which executes the schedule move by move.  The semantics of the virtual mutex / condition
 // variable / semaphore / create / join, of spurious wake-ups, timeouts, the scripted clock and queue
 // rotation is a hand transcription of coq/Sync/Sched.v (prim_step, prim_spurious, prim_timeout,
-// prim_clock, prim_rotate) and part of the trusted base.  Everything the scheduler itself needs from
+// prim_timeout_steal, prim_clock, prim_rotate) and part of the trusted base.  Everything the scheduler itself needs from
 // the OS goes through __real_* (baton = POSIX semaphores).
 //
 // C headers only; C interface in sync_sched.h.
@@ -97,7 +97,11 @@ static int prim_step(int t, const Call& c, long long* r)
   case C_IDLE: return O_RETURN;
   case C_LOCK: return acquire(c.a, t) ? O_RETURN : O_BLOCKED;
   case C_TRY: if(!acquire(c.a, t)) *r = EBUSY; return O_RETURN;
-  case C_UNLOCK: if(owned_by(c.a, t)) release(c.a); else *r = EPERM; return O_RETURN;
+  case C_UNLOCK:
+    if(owned_by(c.a, t)) release(c.a);
+    else if(S.mtx[c.a].rec) *r = EPERM;           // recursive / error-checking: owner-checked
+    else release_all(c.a);                        // default type: glibc does not check the owner
+    return O_RETURN;
   case C_CONDWAIT: {
     TStat& s = S.st[t];
     if(s.kind == K_RUN) {
@@ -152,6 +156,11 @@ static void prim_timeout(int t)
 {
   TStat& s = S.st[t];
   if(s.kind == K_CONDBLOCKED && s.has_dl && dl_expired(s.dsec, s.dnsec, S.now)) { remove_tid(s.c, t); s.kind = K_WOKEN; s.rc = ETIMEDOUT; }
+}
+static void prim_timeout_steal(int t)
+{
+  TStat& s = S.st[t];
+  if(s.kind == K_WOKEN && s.has_dl && dl_expired(s.dsec, s.dnsec, S.now)) s.rc = ETIMEDOUT;
 }
 static void prim_clock(long long n) { if(n > S.now) S.now = n; }
 static void prim_rotate(int c)
@@ -289,6 +298,11 @@ void vs_move_tmo(int t)
   if(S.st[t].kind == K_CONDBLOCKED) prim_timeout(t);
   else if(S.st[t].kind == K_RUN && pend[t].kind == C_SEMWAIT && pend[t].has_dl
           && dl_valid(pend[t].dnsec) && dl_expired(pend[t].dsec, pend[t].dnsec, S.now)) { retv[t] = ETIMEDOUT; resume(t); }
+}
+void vs_move_steal(int t)
+{
+  if(t < 0 || t >= VS_MAXT) return;
+  prim_timeout_steal(t);
 }
 void vs_move_clock(long long n) { prim_clock(n); }
 void vs_move_rot(int c) { if(c >= 0 && c < VS_NC) prim_rotate(c); }
